@@ -119,3 +119,30 @@ Proof.
       with (RNodes (r_segments rf rs veq major root (sq_segs l) [([], cur)])); rewrite <- Es; cbn [as_logical]; split; intros H; try discriminate; try reflexivity.
   exfalso. apply H. reflexivity.
 Qed.
+
+(* ---- count() and value() over a singular query ---- *)
+Theorem count_of_singular rf rs veq major root q cur : singular q = true ->
+  let c := r_tfun rf rs veq major root (FnCount (ArgTest (TRel q))) cur in
+  c = RValue (Some (jint 0)) \/ c = RValue (Some (jint 1)).
+Proof.
+  intros Hs c. subst c.
+  change (r_tfun rf rs veq major root (FnCount (ArgTest (TRel q))) cur)
+    with (RValue (rfc_count (r_segments rf rs veq major root q [([], cur)]))).
+  pose proof (singular_segments_le1 rf rs veq major root q Hs [([], cur)]) as H. cbn [length] in H. specialize (H (le_n 1)).
+  unfold rfc_count. destruct (r_segments rf rs veq major root q [([], cur)]) as [|n [|n2 r]]; cbn [length] in *.
+  - left. reflexivity.
+  - right. reflexivity.
+  - exfalso. lia.
+Qed.
+
+(* value(@.path) is the operand @.path of a comparison *)
+Theorem value_of_singular_is_operand rf rs veq major root l cur :
+  r_tfun rf rs veq major root (FnValue (ArgTest (TRel (sq_segs l)))) cur
+  = RValue (r_comparable rf rs veq major root (CSq (SqCur l)) cur).
+Proof.
+  change (r_tfun rf rs veq major root (FnValue (ArgTest (TRel (sq_segs l)))) cur)
+    with (RValue (rfc_value (r_segments rf rs veq major root (sq_segs l) [([], cur)]))).
+  destruct (squery_as_segments rf rs veq major root l cur) as [Es _]. rewrite <- Es.
+  change (r_comparable rf rs veq major root (CSq (SqCur l)) cur) with (as_value (RNodes (r_squery root (SqCur l) cur))).
+  unfold rfc_value, as_value. destruct (r_squery root (SqCur l) cur) as [|n [|n2 r]]; reflexivity.
+Qed.
